@@ -158,13 +158,18 @@ static void malformed(const Grp &G) {
 	m = mb; mpz_set(m.key, mc.key); add("key-of-other-proof", m, true);
 	m = mb; mpz_set_ui(m.c, 0); mpz_set_ui(m.r, 0); add("zero-proof", m, mpz_sgn(mb.c) != 0);
 	m = mb; add("no-final-newline", m, true, false);
+	// a "proof" that verifies for the non-member key 0 unless the membership test refuses it: t2 = g^r * 0^c = 0, c = H(p,q,g,0,0)
+	{ Z zero(0UL); m = mb; mpz_set_ui(m.key, 0); tmcg_mpz_shash(m.c, 5, G.p.v, G.q.v, a->g, zero.v, zero.v); if (mpz_sgn(m.c)) add("key-zero-forged", m, true); }
+	// the same trick for key = p (= 0 mod p) and for the order-2 element p-1 with an even challenge: t2 = g^r, c = H(p,q,g,p-1,g^r)
+	{ Z zero(0UL); m = mb; mpz_set(m.key, G.p); tmcg_mpz_shash(m.c, 5, G.p.v, G.q.v, a->g, m.key.v, zero.v); if (mpz_sgn(m.c)) add("key-p-forged", m, true); }
+	{ Z t; m = mb; mpz_sub_ui(m.key, G.p, 1); mpz_powm(t, a->g, m.r, G.p); tmcg_mpz_shash(m.c, 5, G.p.v, G.q.v, a->g, m.key.v, t.v); if (mpz_even_p(m.c)) add("key-order2-forged", m, true); }
 	for (Mut &mu : muts) {
 		Z h0(a->h); size_t n0 = a->KeyGenerationProtocol_NumberOfKeys();
 		int r = do_update(a, mu.m, mu.good);
 		std::string d = std::string(mu.name) + " ret=" + std::to_string(r) + " " + gdesc(G) + " key=" + mu.m.key.h() + " c=" + mu.m.c.h() + " r=" + mu.m.r.h();
 		if (r == 1 && mu.surely_wrong) propfail(std::string("malformed-accepted-") + mu.name, "contribution mutated by " + d + " was accepted");
 		if (r != 1 && (mpz_cmp(h0, a->h) || n0 != a->KeyGenerationProtocol_NumberOfKeys()))
-			propfail(std::string("refused-but-changed-") + mu.name, "refused contribution changed the key state: " + d + " h before " + h0.h() + " after " + hx(a->h));
+			{ propfail(std::string("refused-but-changed-") + mu.name, "refused contribution changed the key state: " + d + " h before " + h0.h() + " after " + hx(a->h)); mpz_set(a->h, h0); }
 		if (r == 1) { // an accepted variant (same residue): undo so the following cases start from the same state
 			int rr = do_remove(a, mu.m);
 			if (rr != 1 || mpz_cmp(h0, a->h)) propfail("remove-not-restoring", "remove after accepted variant " + d + " gave ret=" + std::to_string(rr) + " h=" + hx(a->h) + " expected " + h0.h());
